@@ -843,15 +843,23 @@ def _is_obvious_ancestor(branch, start_rev_id, end_rev_id):
         elif (
             len(start_dotted) == 3
             and len(end_dotted) == 3
-            and start_dotted[0:1] == end_dotted[0:1]
+            and start_dotted[0:2] == end_dotted[0:2]
         ):
             # both on same development line
             return start_dotted[2] <= end_dotted[2]
         else:
             # not obvious
             return False
-    # if either start or end is not specified then we use either the first or
-    # the last revision and *they* are obvious ancestors.
+    if start_rev_id:
+        # The end is the branch tip: only a mainline revision is an obvious
+        # ancestor of it.
+        try:
+            start_dotted = branch.revision_id_to_dotted_revno(start_rev_id)
+        except errors.NoSuchRevision:
+            return False
+        return len(start_dotted) == 1
+    # if start is not specified then we use the first revision and it is an
+    # obvious ancestor.
     return True
 
 
